@@ -70,6 +70,8 @@ let s_gw g obs =
                Some (Printf.sprintf "%d:%02x%02x%02x%02x" idx (int_of_n r.rp_ver) (int_of_n r.rp_token / 256) (int_of_n r.rp_token mod 256) (int_of_n r.rp_ident))) replies) in
          (* oracle on the implementation's observation: one ack per request with the request's token,
             nothing at all for an unauthorised PUSH_DATA *)
+         let has_sub s sub = (try ignore (Str.search_forward (Str.regexp_string sub) s 0); true with Not_found -> false) in
+         if has_sub io "SAME-RECEIVE-TIME" && !verdict = "ok" then verdict := "bad:entries-of-one-datagram-share-a-receive-time";
          let iack = (try let j = String.index io ']' in String.sub io 1 (j - 1) with _ -> "") in
          if int_of_n pkt.gp_ident = 0 && not was_auth && (iack <> "" || (not opaque && io <> "[] []")) then verdict := "bad:unauthorised-gateway-served";
          if int_of_n pkt.gp_ident = 0 && was_auth && iack <> String.concat " " rs then verdict := "bad:push-data-not-acknowledged-once-with-token";
